@@ -685,3 +685,15 @@ Example noncanonical_rejected :
   Decode true op [2; 0; 0; 0; 9; 0] = Err EOther /\
   Decode true SBool [2] = Err EBool.
 Proof. repeat split; vm_compute; reflexivity. Qed.
+
+(* ---------- history independence of the model of an API session ---------- *)
+Lemma history_independent : forall h1 h2 c d,
+  last (run_history (h1 ++ [c])) d = last (run_history (h2 ++ [c])) d.
+Proof. intros. unfold run_history. rewrite !map_app. cbn [map]. rewrite !last_last. reflexivity. Qed.
+
+Lemma history_pointwise : forall h n c d, nth_error h n = Some c -> nth n (run_history h) d = run_call c.
+Proof.
+  intros h n c d H. unfold run_history. rewrite (nth_indep _ d (run_call c)).
+  - rewrite map_nth. f_equal. apply nth_error_nth. exact H.
+  - rewrite map_length. apply nth_error_Some. congruence.
+Qed.
